@@ -421,7 +421,9 @@ def parcor_stable(filt):
   """
   try:
     den = filt.denpoly
-    return all(abs(k) < 1 for k in parcor(ZFilter(den) / den[0]))
+    if den[0] != 1: # Term by term (exact) division, not "times 1. / den[0]"
+      den = den / den[0]
+    return all(abs(k) < 1 for k in parcor(ZFilter(den)))
   except ParCorError:
     return False
 
